@@ -460,8 +460,8 @@ def constraint_report(truth, nd, admitted, exhaustive):
   T, C = nd['t'], nd['c']
   rep = []
 
-  def interval(name, value, lo, hi):
-    tol = RTOL * max(abs(lo), abs(hi), abs(value), 1e-300)
+  def interval(name, value, lo, hi, rtol=RTOL):
+    tol = rtol * max(abs(lo), abs(hi), abs(value), 1e-300)
     if value < lo - tol or value > hi + tol:
       rep.append((name, 'violated', '%s=%.12g outside [%.12g, %.12g]' % (name, value, lo, hi)))
     elif value < lo + tol or value > hi - tol:
@@ -514,7 +514,11 @@ def constraint_report(truth, nd, admitted, exhaustive):
       rep.append(('budget_range', 'ambiguous', 'constant series'))
     else:
       budget = truth.req_impact(T, C) / truth.iroas if truth.iroas > 0 else float('inf')
-      interval('budget_range', budget, lo, hi)
+      # the required impact is built from standard deviations: on series whose level dwarfs their variation the
+      # (two-pass) s.d. itself is only known to about eps * level / s.d. - in the library as in this oracle
+      y_ = truth.series(T)
+      kap = max(abs(float(np.mean(x))) / float(np.std(x)), abs(float(np.mean(y_))) / float(np.std(y_)))
+      interval('budget_range', budget, lo, hi, rtol=RTOL + 1e-14 * kap)
   return rep
 
 
